@@ -44,12 +44,15 @@ theorem flush_quiet (n : Node) (i : Nat) (hq : Quiet n.s i) : flush n = n := by
   unfold flush sendFrames
   rw [sendFramesAux_empty _ _ _ hq.ringEmpty]
 
-/-- device 0 is the one that acts; the node's other devices (if any) have nothing pending, and no device is in the middle of an
-address claim -/
-structure Lead (n : Node) (d : Dev) : Prop where
-  dev0 : n.s.devs[0]? = some d
-  others : ∀ k, 0 < k → (n.tp k).hasPending = false
+/-- device `i` is the one that acts; the node's other devices (if any) have nothing pending, no device is in the middle of an
+address claim, and no device before `i` has the same address (so that `FindSourceDeviceIndex` finds `i`) -/
+structure Lead (n : Node) (i : Nat) (d : Dev) : Prop where
+  dev0 : n.s.devs[i]? = some d
+  first : ∀ (k : Nat) (e : Dev), k < i → n.s.devs[k]? = some e → e.source ≠ d.source
+  others : ∀ k, k ≠ i → (n.tp k).hasPending = false
   claims : ∀ e ∈ n.s.devs, e.claimTimer.isEnabled n.s.flavor = false
+
+variable {i : Nat}
 
 theorem map_id_of {α : Type} (f : α → α) : ∀ (l : List α), (∀ e ∈ l, f e = e) → l.map f = l
   | [], _ => rfl
@@ -62,13 +65,13 @@ theorem claimTick_lead (n : Node) (hc : ∀ e ∈ n.s.devs, e.claimTimer.isEnabl
   rw [this]
   simp
 
-theorem Lead.upd {n : Node} {d : Dev} (h : Lead n d) (tp : Nat → TpDev) (sl : List Slot) (out : List Delivery) (fs rxq : List Frame)
-    (htp : ∀ k, 0 < k → (tp k).hasPending = false) : Lead (n.upd tp sl out fs rxq) d := ⟨h.dev0, htp, h.claims⟩
+theorem Lead.upd {n : Node} {d : Dev} (h : Lead n i d) (tp : Nat → TpDev) (sl : List Slot) (out : List Delivery) (fs rxq : List Frame)
+    (htp : ∀ k, k ≠ i → (tp k).hasPending = false) : Lead (n.upd tp sl out fs rxq) i d := ⟨h.dev0, h.first, htp, h.claims⟩
 
-theorem Lead.same {n : Node} {d : Dev} (h : Lead n d) (sl : List Slot) (out : List Delivery) (fs rxq : List Frame) :
-    Lead (n.upd n.tp sl out fs rxq) d := h.upd _ _ _ _ _ h.others
+theorem Lead.same {n : Node} {d : Dev} (h : Lead n i d) (sl : List Slot) (out : List Delivery) (fs rxq : List Frame) :
+    Lead (n.upd n.tp sl out fs rxq) i d := h.upd _ _ _ _ _ h.others
 
-theorem Lead.src {n : Node} {d : Dev} (h : Lead n d) (hq : Quiet n.s 0) : d.source ≤ 251 := by
+theorem Lead.src {n : Node} {d : Dev} (h : Lead n i d) (hq : Quiet n.s i) : d.source ≤ 251 := by
   obtain ⟨d', hd', hs, _⟩ := hq.dev
   rw [h.dev0] at hd'; cases hd'; exact hs
 
@@ -116,59 +119,77 @@ theorem foldl_skip (f : Node → Nat → Node) : ∀ (l : List Nat) (n : Node), 
     rw [List.foldl_cons, h k (by simp) n rfl]
     exact foldl_skip f t n (fun j hj m hm => h j (by simp [hj]) m hm)
 
-theorem pendingAll_solo (n : Node) (d : Dev) (hd : Lead n d) (hi : InfoIdle n 0) :
-    pendingAll n = if (n.tp 0).hasPending then pendingTP n 0 else n := by
+theorem pendingAll_solo (n : Node) (d : Dev) (hd : Lead n i d) (hi : InfoIdle n i) :
+    pendingAll n = if (n.tp i).hasPending then pendingTP n i else n := by
   unfold pendingAll
-  have hlen : 0 < n.s.devs.length := by
-    rcases Nat.lt_or_ge 0 n.s.devs.length with h | h
+  have hlen : i < n.s.devs.length := by
+    rcases Nat.lt_or_ge i n.s.devs.length with h | h
     · exact h
     · have := hd.dev0; rw [List.getElem?_eq_none h] at this; cases this
-  obtain ⟨L, hL⟩ : ∃ L, n.s.devs.length = L + 1 := ⟨n.s.devs.length - 1, by omega⟩
-  rw [hL, List.range_succ_eq_map, List.foldl_cons]
-  rw [pendingDev_idle n 0 hi]
-  generalize hn1 : (if (n.tp 0).hasPending = true then pendingTP n 0 else n) = n1
-  have hoth : ∀ k, 0 < k → (n1.tp k).hasPending = false := by
+  obtain ⟨r, hL⟩ : ∃ r, n.s.devs.length = i + (r + 1) := ⟨n.s.devs.length - i - 1, by omega⟩
+  rw [hL, List.range_add, List.foldl_append]
+  have hfront : (List.range i).foldl (fun n i => if (n.tp i).hasPending = true then pendingDev n i else n) n = n := by
+    apply foldl_skip
+    intro k hk m hm
+    have hki : k ≠ i := by have := List.mem_range.1 hk; omega
+    rw [hm, hd.others k hki]; simp
+  rw [hfront, List.range_succ_eq_map, List.map_cons, List.foldl_cons, Nat.add_zero]
+  rw [pendingDev_idle n i hi]
+  generalize hn1 : (if (n.tp i).hasPending = true then pendingTP n i else n) = n1
+  have hoth : ∀ k, k ≠ i → (n1.tp k).hasPending = false := by
     intro k hk
     rw [← hn1]
     split
-    · rw [pendingTP_tp_other n 0 k (by omega)]; exact hd.others k hk
+    · rw [pendingTP_tp_other n i k hk]; exact hd.others k hk
     · exact hd.others k hk
   apply foldl_skip
   intro k hk m hm
-  obtain ⟨k', _, rfl⟩ := List.mem_map.1 hk
-  rw [hm, hoth (k' + 1) (by omega)]
+  obtain ⟨k1, hk1, rfl⟩ := List.mem_map.1 hk
+  obtain ⟨k', _, rfl⟩ := List.mem_map.1 hk1
+  rw [hm, hoth (i + (k' + 1)) (by omega)]
   simp
 
 theorem pendingTP_notdue (n : Node) (i : Nat) (h : (n.tp i).timer.isTime n.s.flavor n.s.now = false) : pendingTP n i = n := by
   unfold pendingTP; simp [h]
 
 /-- a poll of a quiet single-device node whose transport timer is not due: only the received frames are handled -/
-theorem poll_solo (n : Node) (d : Dev) (hd : Lead n d) (hq : Quiet n.s 0) (hi : InfoIdle n 0)
-    (ht : (n.tp 0).hasPending = true → (n.tp 0).timer.isTime n.s.flavor n.s.now = false) (hlen : n.rxq.length ≤ 20) :
+theorem poll_solo (n : Node) (d : Dev) (hd : Lead n i d) (hq : Quiet n.s i) (hi : InfoIdle n i)
+    (ht : (n.tp i).hasPending = true → (n.tp i).timer.isTime n.s.flavor n.s.now = false) (hlen : n.rxq.length ≤ 20) :
     poll n = claimTick { (rxList n.rxq n) with rxq := [] } := by
   unfold poll
-  rw [flush_quiet n 0 hq, pendingAll_solo n d hd hi]
-  have h1 : (if (n.tp 0).hasPending = true then pendingTP n 0 else n) = n := by
-    by_cases hp : (n.tp 0).hasPending = true
-    · rw [if_pos hp, pendingTP_notdue n 0 (ht hp)]
+  rw [flush_quiet n i hq, pendingAll_solo n d hd hi]
+  have h1 : (if (n.tp i).hasPending = true then pendingTP n i else n) = n := by
+    by_cases hp : (n.tp i).hasPending = true
+    · rw [if_pos hp, pendingTP_notdue n i (ht hp)]
     · rw [if_neg hp]
   rw [h1, List.take_of_length_le hlen, List.drop_of_length_le hlen]
 
 /-- a poll with nothing to receive and no timer due changes nothing: extra polls in a schedule are harmless -/
-theorem poll_idle (n : Node) (d : Dev) (hd : Lead n d) (hq : Quiet n.s 0) (hi : InfoIdle n 0)
-    (ht : (n.tp 0).hasPending = true → (n.tp 0).timer.isTime n.s.flavor n.s.now = false) (hrx : n.rxq = []) : poll n = n := by
+theorem poll_idle (n : Node) (d : Dev) (hd : Lead n i d) (hq : Quiet n.s i) (hi : InfoIdle n i)
+    (ht : (n.tp i).hasPending = true → (n.tp i).timer.isTime n.s.flavor n.s.now = false) (hrx : n.rxq = []) : poll n = n := by
   rw [poll_solo n d hd hq hi ht (by simp [hrx]), hrx]
   simp only [rxList, List.foldl_nil]
   have : ({ n with rxq := [] } : Node) = n := by rw [← hrx]
   rw [this]
   exact claimTick_lead n hd.claims
 
-theorem findDev_lead {devs : List Dev} {d : Dev} (h0 : devs[0]? = some d) (h : d.source ≤ 253) : findDev devs d.source = some 0 := by
-  cases devs with
-  | nil => cases h0
-  | cons e t =>
-    simp only [List.getElem?_cons_zero, Option.some.injEq] at h0; subst h0
-    simp [findDev, h, findIdx]
+theorem findIdx_first {α : Type} (p : α → Bool) : ∀ (l : List α) (i : Nat) (x : α), l[i]? = some x → p x = true →
+    (∀ (k : Nat) (e : α), k < i → l[k]? = some e → p e = false) → findIdx p l = some i
+  | [], _, _, h, _, _ => by cases h
+  | a :: t, 0, x, h, hp, _ => by
+    simp only [List.getElem?_cons_zero, Option.some.injEq] at h; subst h; simp [findIdx, hp]
+  | a :: t, i+1, x, h, hp, hf => by
+    have ha : p a = false := hf 0 a (by omega) rfl
+    simp only [findIdx, ha, Bool.false_eq_true, ↓reduceIte]
+    rw [findIdx_first p t i x (by simpa using h) hp (fun k e hk he => hf (k + 1) e (by omega) (by simpa using he))]
+    rfl
+
+theorem findDev_lead {n : Node} {d : Dev} (hl : Lead n i d) (h : d.source ≤ 253) : findDev n.s.devs d.source = some i := by
+  unfold findDev
+  rw [if_pos h]
+  apply findIdx_first _ _ _ _ hl.dev0 (by simp)
+  intro k e hk he
+  simpa using hl.first k e hk he
 
 
 /-! ## the application hands a message to `SendMsg` on a quiet node -/
@@ -202,35 +223,35 @@ theorem gate_quiet (s : St) (i : Nat) (m : Msg) (d : Dev) (hq : Quiet s i) (hd :
 def pendMsg (m : Msg) (d : Dev) : Msg := { m with src := d.source }
 
 /-- the transport state of device 0 during a transfer; the timeout `tmo` was armed at time `t0` -/
-def txTp (n : Node) (m : Msg) (seq t0 tmo : Nat) : Nat → TpDev :=
-  fun j => if j = 0 then { pend := m, nextSeq := seq, timer := Sched.fromNow n.s.flavor t0 tmo, hasPending := true } else n.tp j
+def txTp (i : Nat) (n : Node) (m : Msg) (seq t0 tmo : Nat) : Nat → TpDev :=
+  fun j => if j = i then { pend := m, nextSeq := seq, timer := Sched.fromNow n.s.flavor t0 tmo, hasPending := true } else n.tp j
 
 /-- **start**: `SendMsg` of a transport-flagged message of more than 8 bytes to another node: the RTS goes out -/
-theorem sendMsgTP_start (a : Node) (m : Msg) (d : Dev) (hq : Quiet a.s 0) (hd : a.s.devs[0]? = some d)
+theorem sendMsgTP_start (a : Node) (m : Msg) (d : Dev) (hq : Quiet a.s i) (hd : a.s.devs[i]? = some d)
     (hlow : m.pgn &&& 0xff = 0) (hp0 : m.pgn ≠ 0) (hid : n2kToCanId m.prio m.pgn d.source m.dst ≠ 0)
-    (htp : m.tp = true) (h9 : 9 ≤ m.len) (hdst : m.dst < 255) (hidle : (a.tp 0).pend.pgn = 0) :
-    sendMsgTP a m (some 0) =
-      (a.upd (txTp a (pendMsg m d) 0 a.s.now 50) a.slots a.out
+    (htp : m.tp = true) (h9 : 9 ≤ m.len) (hdst : m.dst < 255) (hidle : (a.tp i).pend.pgn = 0) :
+    sendMsgTP a m (some i) =
+      (a.upd (txTp i a (pendMsg m d) 0 a.s.now 50) a.slots a.out
           (a.s.drv.sent ++ [cmFrame d.source m.dst (announceBytes 16 (pendMsg m d))]) a.rxq, true) := by
   unfold sendMsgTP
-  rw [gate_quiet a.s 0 m d hq hd hlow hp0 hid]
+  rw [gate_quiet a.s i m d hq hd hlow hp0 hid]
   have hbig : m.tp = true ∧ ¬ (m.len ≤ 8 ∧ ¬ (m.prio < 0x80 ∧ isFastPacketPGN a.s.lists m.pgn = true)) := by
     refine ⟨htp, ?_⟩; intro h; omega
   simp only []
   rw [if_pos hbig]
   simp only [Option.getD_some, hlow, srcOf, ne_eq, not_true_eq_false, ↓reduceIte]
   unfold startSendTP
-  have hlen : ¬ (0 ≥ a.s.devs.length) := by
+  have hlen : ¬ (i ≥ a.s.devs.length) := by
     intro h
-    have : a.s.devs[0]? = none := List.getElem?_eq_none h
+    have : a.s.devs[i]? = none := List.getElem?_eq_none h
     rw [this] at hd; cases hd
-  have hidle' : ¬ ((a.tp 0).pend.pgn ≠ 0) := by simp [hidle]
+  have hidle' : ¬ ((a.tp i).pend.pgn ≠ 0) := by simp [hidle]
   simp only [hlen, hidle', ↓reduceIte]
   have hne : ¬ (m.dst = 0xff) := by omega
   simp only [hne, ↓reduceIte]
   unfold sendRTS
   simp only [Node.setTp_s, hq.active, not_true_eq_false, ↓reduceIte]
-  rw [announce_quiet 16 _ 0 d (by simpa using hq) (by simpa using hd) _ (by simp; omega)]
+  rw [announce_quiet 16 _ i d (by simpa using hq) (by simpa using hd) _ (by simp; omega)]
   simp only [Node.setTp_tp, ↓reduceIte]
   rfl
 
@@ -264,18 +285,18 @@ theorem handleCTS_grant (n : Node) (i src b1 b2 : Nat) (d : Dev) (hq : Quiet n.s
 
 /-- **the sender polls with a CTS (window `c`, next packet `seq+1`) in its receive queue** -/
 theorem poll_cts (a : Node) (d : Dev) (m : Msg) (peer seq t0 tmo np : Nat) (sl : List Slot) (out : List Delivery)
-    (hd : Lead a d) (hq : Quiet a.s 0) (hi : InfoIdle a 0) (hm : m.dst = peer) (hpeer : peer < 255) (hlen : m.len ≤ 223)
+    (hd : Lead a i d) (hq : Quiet a.s i) (hi : InfoIdle a i) (hm : m.dst = peer) (hpeer : peer < 255) (hlen : m.len ≤ 223)
     (hpgn : m.pgn < 2^24) (htmo : tmo ≤ 100) (ht0 : t0 ≤ a.s.now ∧ a.s.now < t0 + tmo) (h64 : a.s.now + 100 < M64) (hseq : seq < 255) :
-    poll (a.upd (txTp a m seq t0 tmo) sl out [] [cmFrame peer d.source (ctsBytes m.pgn np (seq + 1))]) =
-      a.upd (txTp a m (seq + min (tpCtsPackets np) (tpPacketCount m.len - seq)) a.s.now 100) sl out
+    poll (a.upd (txTp i a m seq t0 tmo) sl out [] [cmFrame peer d.source (ctsBytes m.pgn np (seq + 1))]) =
+      a.upd (txTp i a m (seq + min (tpCtsPackets np) (tpPacketCount m.len - seq)) a.s.now 100) sl out
         ((List.range (min (tpCtsPackets np) (tpPacketCount m.len - seq))).map fun x => dtFrame d.source m (seq + x)) [] := by
   have hsrc : d.source ≤ 251 := by
     exact hd.src hq
-  have hd0 : a.s.devs[0]? = some d := hd.dev0
-  generalize hN : a.upd (txTp a m seq t0 tmo) sl out [] [cmFrame peer d.source (ctsBytes m.pgn np (seq + 1))] = N
-  have hNq : Quiet N.s 0 := by subst hN; exact upd_quiet _ _ _ _ _ _ hq
-  have hNd : Lead N d := by subst hN; exact hd.upd _ _ _ _ _ (fun k hk => by simp [txTp, Nat.ne_of_gt hk, hd.others k hk])
-  have hNt : (N.tp 0).timer.isTime N.s.flavor N.s.now = false := by
+  have hd0 : a.s.devs[i]? = some d := hd.dev0
+  generalize hN : a.upd (txTp i a m seq t0 tmo) sl out [] [cmFrame peer d.source (ctsBytes m.pgn np (seq + 1))] = N
+  have hNq : Quiet N.s i := by subst hN; exact upd_quiet _ _ _ _ _ _ hq
+  have hNd : Lead N i d := by subst hN; exact hd.upd _ _ _ _ _ (fun k hk => by simp [txTp, hk, hd.others k hk])
+  have hNt : (N.tp i).timer.isTime N.s.flavor N.s.now = false := by
     subst hN
     simp only [upd_tp, txTp, ↓reduceIte, upd_flavor, upd_now]
     exact isTime_fromNow_early _ _ _ _ ht0.1 ht0.2 (by omega) (by omega)
@@ -285,23 +306,23 @@ theorem poll_cts (a : Node) (d : Dev) (m : Msg) (peer seq t0 tmo np : Nat) (sl :
   simp only [rxList, List.foldl_cons, List.foldl_nil]
   rw [rxFrame_cm N peer d.source _ (by omega) (by omega) (by simp [ctsBytes, le3])]
   unfold handleCM
-  have hfd : findDev N.s.devs d.source = some 0 := findDev_lead hNd.dev0 (by omega)
+  have hfd : findDev N.s.devs d.source = some i := findDev_lead hNd (by omega)
   simp only [hfd, ctsBytes, le3, List.cons_append, List.nil_append, List.getD_cons_zero, List.getD_cons_succ, le3_sum m.pgn hpgn]
   simp only [Nat.reduceEqDiff, or_self, ↓reduceIte]
   have hmod : (seq + 1) % 256 = seq + 1 := Nat.mod_eq_of_lt (by omega)
   rw [hmod]
-  have hpend : (N.tp 0).pend = m := by subst hN; simp [txTp]
-  have hns : (N.tp 0).nextSeq = seq := by subst hN; simp [txTp]
-  have hcts := handleCTS_grant N 0 peer (tpCtsPackets np) (seq + 1) d hNq hNd.dev0 (by rw [hpend]; exact hm)
+  have hpend : (N.tp i).pend = m := by subst hN; simp [txTp]
+  have hns : (N.tp i).nextSeq = seq := by subst hN; simp [txTp]
+  have hcts := handleCTS_grant N i peer (tpCtsPackets np) (seq + 1) d hNq hNd.dev0 (by rw [hpend]; exact hm)
     (by omega) (by omega) (by rw [hpend]; exact hlen) (by unfold tpCtsPackets; omega) (by rw [hns])
   rw [hpend] at hcts
   rw [hcts, hns]
   subst hN
   simp only [upd_setTp, upd_pushes, upd_tp, setTimer, List.nil_append, upd_flavor, upd_now]
-  have hres : ∀ X : Node, X = a.upd (txTp a m (seq + min (tpCtsPackets np) (tpPacketCount m.len - seq)) a.s.now 100) sl out
+  have hres : ∀ X : Node, X = a.upd (txTp i a m (seq + min (tpCtsPackets np) (tpPacketCount m.len - seq)) a.s.now 100) sl out
         ((List.range (min (tpCtsPackets np) (tpPacketCount m.len - seq))).map fun x => dtFrame d.source m (seq + x))
         [cmFrame peer d.source (ctsBytes m.pgn np (seq + 1))] →
-      claimTick { X with rxq := [] } = a.upd (txTp a m (seq + min (tpCtsPackets np) (tpPacketCount m.len - seq)) a.s.now 100) sl out
+      claimTick { X with rxq := [] } = a.upd (txTp i a m (seq + min (tpCtsPackets np) (tpPacketCount m.len - seq)) a.s.now 100) sl out
         ((List.range (min (tpCtsPackets np) (tpPacketCount m.len - seq))).map fun x => dtFrame d.source m (seq + x)) [] := by
     intro X hX
     subst hX
@@ -310,6 +331,6 @@ theorem poll_cts (a : Node) (d : Dev) (m : Msg) (peer seq t0 tmo np : Nat) (sl :
   unfold Node.upd
   congr 1
   funext j
-  by_cases hj : j = 0 <;> simp [txTp, hj]
+  by_cases hj : j = i <;> simp [txTp, hj]
 
 end N2k.TP
